@@ -1,4 +1,5 @@
 import EG.TravOps
+import EG.Render
 /-
   EG.TravState — the traversal and search entry points WITH their effect on the world.
 
@@ -167,4 +168,41 @@ def search (w : World) (F : Nat → LId → Option VId → Bool) (kind : TO.Sear
         if x > w.nV then .inl ((TO.errOf w F 0 2 none (x - w.nV - 1)).getD .other) else .inr (some x))
 
 end TS
+end EG
+
+/-! ### `basic_render` with its memo traffic
+
+  `basic_render` obtains the neighbours of every member by calling `helpers.neighbors(vert)`
+  (default settings), one member after the other; with caching on each call reads / writes the
+  memo of that member.  When a call raises, the render stops there. -/
+namespace EG
+namespace R
+
+def renderLinesS (F : Nat → LId → Option VId → Bool) (rf : RFun) (sort : Option (Option VId → Nat)) :
+    World → List VId → World × Except Err (List String)
+  | w, [] => (w, .ok [])
+  | w, v :: vs =>
+    let r := M.neighbors w F v 0 2 none none
+    match r.2 with
+    | .error e => (r.1, .error e)
+    | .ok nbs =>
+      let nbs := match sort with | some key => sortBy key nbs | none => nbs
+      let r' := renderLinesS F rf sort r.1 vs
+      match r'.2 with
+      | .error e => (r'.1, .error e)
+      | .ok rest => (r'.1, .ok (line rf v nbs :: rest))
+
+/-- `basic_render(uni=u, rfunc, sort)` : the world afterwards and the answer -/
+def basicRenderS (w : World) (F : Nat → LId → Option VId → Bool) (u : VId) (rf : RFun)
+    (sort : Option (Option VId → Nat)) : World × Except Err (Option String) :=
+  if (w.members u).isEmpty then (w, .ok none) else
+  let verts := match sort with
+    | some key => (sortBy key ((w.members u).map some)).filterMap id
+    | none => w.members u
+  let r := renderLinesS F rf sort w verts
+  match r.2 with
+  | .error e => (r.1, .error e)
+  | .ok ls => (r.1, .ok (some ("\n".intercalate ls)))
+
+end R
 end EG
